@@ -760,10 +760,9 @@ theorem Dense.getItem_region [Zero α] {T : Dense α} {m : MArr α} (h : DRel T 
           rw [outerF_length, ← numel_keptShape rs hd, hks]; rfl
         simp only [List.isEmpty_nil, Bool.not_true, Bool.false_eq_true, ↓reduceIte]
         obtain ⟨x, ho⟩ : ∃ x, outerF (rs.map (·.2.1)) = [x] := by
-          match ho : outerF (rs.map (·.2.1)), hlen with
+          generalize outerF (rs.map (·.2.1)) = o at hlen
+          match o, hlen with
           | [x], _ => exact ⟨x, rfl⟩
-          | [], hh => simp at hh
-          | _ :: _ :: _, hh => simp at hh
         rw [ho]
         simp
       | cons k ks => simp
@@ -776,5 +775,107 @@ theorem Dense.getItem_region [Zero α] {T : Dense α} {m : MArr α} (h : DRel T 
       have h2 := congrArg List.length (regionParts_read_shape hr)
       simp only [List.length_map] at h2
       omega
+
+/-! ### one step and whole histories -/
+
+/-- The operations for which the refinement is proved, at a state of shape `s`:
+subscript arrays (any right-hand side), linear keys (on a tensor of order ≥ 1) and
+non-empty integer/slice regions (writes: scalar right-hand side).
+Not covered: index lists in region keys, array / tensor right-hand sides of region writes. -/
+def IdxOp.provedAt (s : List Nat) : IdxOp α → Bool
+  | .write (.region parts) (.scalar _) => parts.all RPart.simple && !parts.isEmpty
+  | .write (.region _) _ => false
+  | .write (.subs _) _ => true
+  | .write _ _ => !s.isEmpty
+  | .read (.region parts) => parts.all RPart.simple && !parts.isEmpty
+  | .read (.subs _) => true
+  | .read _ => !s.isEmpty
+
+/-- Every operation of the history is of a proved form at the state it is applied to. -/
+def ProvedHist [Zero α] : MArr α → List (IdxOp α) → Prop
+  | _, [] => True
+  | m, op :: ops => op.provedAt m.shape = true ∧ ProvedHist (m.step op).1 ops
+
+theorem Dense.setItem_refines [Zero α] {T : Dense α} {m : MArr α} (h : DRel T m) (key : Key) (rhs : Rhs α)
+    (hp : (IdxOp.write key rhs).provedAt T.shape = true) : RefW (T.setItem key rhs) (m.write key rhs) := by
+  apply RefW.of_eq h
+  cases key with
+  | subs rows => exact Dense.setSubscripts_eq T rows rhs
+  | region parts =>
+    cases rhs with
+    | scalar v =>
+      simp only [IdxOp.provedAt, Bool.and_eq_true, Bool.not_eq_true', List.isEmpty_eq_false_iff] at hp
+      exact Dense.setSubtensor_eq T parts v hp.1 hp.2
+    | col vs => simp [IdxOp.provedAt] at hp
+    | arr A => simp [IdxOp.provedAt] at hp
+    | tensor A => simp [IdxOp.provedAt] at hp
+  | lin i =>
+    have hs : T.shape ≠ [] := by simpa [IdxOp.provedAt] using hp
+    show T.setLinear (.lin i) rhs = _
+    exact Dense.setLinear_eq T hs (.lin i) rhs (by intro r; simp) (by intro r; simp)
+  | linSlice a b c =>
+    have hs : T.shape ≠ [] := by simpa [IdxOp.provedAt] using hp
+    show T.setLinear (.linSlice a b c) rhs = _
+    exact Dense.setLinear_eq T hs (.linSlice a b c) rhs (by intro r; simp) (by intro r; simp)
+  | linList is =>
+    have hs : T.shape ≠ [] := by simpa [IdxOp.provedAt] using hp
+    show T.setLinear (.linList is) rhs = _
+    exact Dense.setLinear_eq T hs (.linList is) rhs (by intro r; simp) (by intro r; simp)
+
+theorem Dense.getItem_refines [Zero α] {T : Dense α} {m : MArr α} (h : DRel T m) (key : Key)
+    (hp : (IdxOp.read key : IdxOp α).provedAt T.shape = true) : T.getItem key = m.read key := by
+  cases key with
+  | subs rows => exact Dense.getItem_subs h rows
+  | region parts =>
+    simp only [IdxOp.provedAt, Bool.and_eq_true, Bool.not_eq_true', List.isEmpty_eq_false_iff] at hp
+    exact Dense.getItem_region h parts hp.1 hp.2
+  | lin i =>
+    have hs : T.shape ≠ [] := by simpa [IdxOp.provedAt] using hp
+    exact Dense.getItem_linear h hs (.lin i) (by intro r; simp) (by intro r; simp)
+  | linSlice a b c =>
+    have hs : T.shape ≠ [] := by simpa [IdxOp.provedAt] using hp
+    exact Dense.getItem_linear h hs (.linSlice a b c) (by intro r; simp) (by intro r; simp)
+  | linList is =>
+    have hs : T.shape ≠ [] := by simpa [IdxOp.provedAt] using hp
+    exact Dense.getItem_linear h hs (.linList is) (by intro r; simp) (by intro r; simp)
+
+/-- One operation on related states: equal output (value read / written / rejected) and
+related states afterwards. -/
+theorem Dense.step_refines [Zero α] {T : Dense α} {m : MArr α} (h : DRel T m) (op : IdxOp α)
+    (hp : op.provedAt T.shape = true) :
+    DRel (T.step op).1 (m.step op).1 ∧ (T.step op).2 = (m.step op).2 := by
+  cases op with
+  | write key rhs =>
+    have hr := Dense.setItem_refines h key rhs hp
+    simp only [Dense.step, MArr.step]
+    cases h1 : T.setItem key rhs with
+    | error e =>
+      cases h2 : m.write key rhs with
+      | error e' => exact ⟨h, rfl⟩
+      | ok m' => rw [h1, h2] at hr; exact absurd hr (by simp [RefW])
+    | ok T' =>
+      cases h2 : m.write key rhs with
+      | error e' => rw [h1, h2] at hr; exact absurd hr (by simp [RefW])
+      | ok m' => rw [h1, h2] at hr; exact ⟨hr, rfl⟩
+  | read key =>
+    have hr := Dense.getItem_refines h key hp
+    simp only [Dense.step, MArr.step, hr]
+    cases m.read key with
+    | error e => exact ⟨h, rfl⟩
+    | ok v => exact ⟨h, rfl⟩
+
+/-- Any history: the dense tensor and the abstract array stay related and every step
+returns the same output. -/
+theorem Dense.run_refines [Zero α] {T : Dense α} {m : MArr α} (h : DRel T m) (ops : List (IdxOp α))
+    (hp : ProvedHist m ops) :
+    DRel (T.run ops).1 (m.run ops).1 ∧ (T.run ops).2 = (m.run ops).2 := by
+  induction ops generalizing T m with
+  | nil => exact ⟨h, rfl⟩
+  | cons op ops ih =>
+    obtain ⟨hp1, hp2⟩ := hp
+    have hs := Dense.step_refines h op (by rw [h.shape]; exact hp1)
+    have := ih hs.1 hp2
+    simp only [Dense.run, MArr.run]
+    exact ⟨this.1, by rw [hs.2, this.2]⟩
 
 end Pyttb
